@@ -209,7 +209,7 @@ Section MoreLazy.
   Proof.
     intros HSC HSN HR Hnr H. pose proof HSC as (Hinv & Hna & Hsi & Hal). pose proof HSN as (s & (R1 & R2) & HS).
     pose proof (destroy_prop_pinv fn rtl fuel w p w' None Hinv H I) as Hinv'.
-    destruct (PropGrowMore.del_shape fn rtl fuel w p w' Hinv Hna Hnr H) as (pr & Hp & Pw & Gw & Sw & Hlen & Hevs).
+    destruct (PropGrowMore.del_shape fn rtl fuel w p w' Hinv Hnr H) as (pr & Hp & Pw & Gw & Sw & Hlen & Hevs).
     assert (Pq : pview w p = Some (psigs_of pr)) by (unfold pview; rewrite Hp; reflexivity).
     (* lz and lz_of after the destruction *)
     assert (Gu : forall bp, pr_updater pr = Some bp -> get_bind w' bp = None /\ exists x, get_bind w bp = Some x /\ b_target x = Some p /\
